@@ -153,8 +153,13 @@ Proof. exact (conj simpson_is_generated default_divs_is_50). Qed.
 Example C05_collinear_example : pm_collinear pm_example_collinear /\ pm_physical pm_example_collinear.
 Proof. exact collinear_example. Qed.
 
-Example C05_limit_hypotheses_example : 0 < 4e-6 /\ 0 < 9e-6 /\ 0 <= 6.25e-6 /\ (0.00007 <> 0).
-Proof. exact limit_hypotheses_example. Qed.
+Example C05_zero_diffraction_instance : forall z,
+  Cmod (pm_closure (fun _ => 1) 1 (RtoC (- (6.25e-6 + 4e-6) / 4)) (RtoC (- (6.25e-6 + 9e-6) / 4)) (RtoC (- (6.25e-6 + 4e-6) / 4))
+                   (RtoC (- (6.25e-6 + 9e-6) / 4)) 0 0 0 0 (RtoC (- (6.25e-6) / 2)) (RtoC (- (6.25e-6) / 2)) 0 0.00007 (0, 0.3)
+                   (RtoC 0) (RtoC 0) (RtoC 0) 1.5 2 z) =
+  Rabs 1 * (4 / sqrt (Sig 4e-6 9e-6 6.25e-6 * Sig 4e-6 9e-6 6.25e-6)) *
+  exp (- (0.00007 * 0.00007 * (4e-6 + 9e-6) / Sig 4e-6 9e-6 6.25e-6) * ((1 + z) * (1 + z))).
+Proof. exact zero_diffraction_instance. Qed.
 
 Print Assumptions C05_integrand_is_closure.
 Print Assumptions C05_fiber_coupling_form.
